@@ -6,7 +6,7 @@
 // P lines: every aggregate recomputed in long double from the per-body public API values in the BODY frames
 // (getBodyTransform, getBodyVelocity, getBodyAcceleration, getBodyMassProperties) with parallel-axis shifts.
 #include "treedyn_gen.h"
-static_assert(TREEDYN_GEN_VERSION == 10, "bump the version here when treedyn_gen.h changes");
+static_assert(TREEDYN_GEN_VERSION == 12, "bump the version here when treedyn_gen.h changes");
 using namespace SimTK;
 using td::TreeCase;
 typedef long double LD;
@@ -38,8 +38,8 @@ static double d3(L3 a, const Vec3& b) { return (double)std::max(std::fabs(a.x - 
 static double m3(const Vec3& b) { return std::max(std::fabs(b[0]), std::max(std::fabs(b[1]), std::fabs(b[2]))); }
 static void osym(vh::Line& o, const SymMat33& S) { o.d(S(0, 0)).d(S(1, 1)).d(S(2, 2)).d(S(1, 0)).d(S(2, 0)).d(S(2, 1)); }
 
-static void runCase(uint64_t caseSeed, int maxBodies) {
-    td::Options opt; opt.maxBodies = maxBodies; opt.zeroUProb = 0.1;
+static void runCase(uint64_t caseSeed, int code) {
+    td::Options opt; td::applyGenCode(code, opt); opt.zeroUProb = 0.1; opt.allowMassless = true; opt.masslessOneIn = 2;
     std::unique_ptr<TreeCase> pc = td::buildCase(caseSeed, opt);
     TreeCase& c = *pc; State& s = c.state; const SimbodyMatterSubsystem& matter = *c.matter;
     const int nu = c.nu, nb = c.nb;
@@ -50,7 +50,7 @@ static void runCase(uint64_t caseSeed, int maxBodies) {
     c.discrete.setAllMobilityForces(s, f); c.discrete.setAllBodyForces(s, F);
     c.sys->realize(s, Stage::Acceleration);
 
-    vh::Line in = vh::I("agg"); in.s(std::to_string(caseSeed)).i(maxBodies).i(0);
+    vh::Line in = vh::I("agg"); in.s(std::to_string(caseSeed)).i(code).i(0);
     td::exportTree(c, in);
     for (int i = 1; i <= nb; ++i) in.v(c.mobods[i].getBodyOriginLocation(s), 3);
     for (int i = 1; i <= nb; ++i) { const SpatialVec& V = c.mobods[i].getBodyVelocity(s); in.v(V[0], 3).v(V[1], 3); }
@@ -86,7 +86,15 @@ static void runCase(uint64_t caseSeed, int maxBodies) {
     td::emitTags(c);
 
     // ---- per-body sums from body-frame API values, in long double
-    const std::string key = "C15.tree";
+    const std::string key = td::anyLoneParticle(c) ? "C15.loneparticle" : "C15.tree";
+    // summation bounds scale with the number of terms: 8 n eps (a reordered / pairwise / fused sum stays inside)
+    const double nEps = 8.0 * (nb + 2) * 2.220446049250313e-16;
+    {   // with a massless intermediate body every aggregate must stay finite
+        bool fin = std::isfinite(mass) && std::isfinite(ke);
+        for (int k = 0; k < 3; ++k) fin = fin && std::isfinite(com[k]) && std::isfinite(comV[k]) && std::isfinite(comA[k]) && std::isfinite(momO[0][k]) && std::isfinite(momC[0][k]);
+        for (int i = 1; i <= nb; ++i) { const SpatialInertia& R = matter.getCompositeBodyInertia(s, MobilizedBodyIndex(i)); fin = fin && std::isfinite(R.getMass()) && std::isfinite(R.getMassCenter()[0]) && std::isfinite(R.getUnitInertia().asSymMat33()(0, 0)); }
+        vh::P("aggregates_finite", key + ".finite", fin ? 0 : 1, 0);
+    }
     LD M = 0; L3 sr = {0, 0, 0}, sv = {0, 0, 0}, sa = {0, 0, 0}, L = {0, 0, 0}, P = {0, 0, 0}; LM IO = lzero(); LD KE = 0;
     std::vector<L3> rc(nb + 1), vc(nb + 1); std::vector<LM> Ic(nb + 1); std::vector<LD> mk(nb + 1);
     for (int i = 1; i <= nb; ++i) {
@@ -109,21 +117,21 @@ static void runCase(uint64_t caseSeed, int maxBodies) {
         rc[i] = rcom; vc[i] = vcom; Ic[i] = IcG; mk[i] = m;
     }
     const L3 C = (1 / M) * sr, CV = (1 / M) * sv, CA = (1 / M) * sa;
-    vh::P("mass_is_sum", key + ".mass", std::fabs((double)(M - mass)) / mass, 1e-14);
-    vh::P("com_is_weighted_sum", key + ".com", d3(C, com) / std::max(1.0, m3(com)), 1e-13);
-    vh::P("com_velocity_is_weighted_sum", key + ".comV", d3(CV, comV) / std::max(1.0, m3(comV)), 1e-13);
-    vh::P("com_acceleration_is_weighted_sum", key + ".comA", d3(CA, comA) / std::max(1.0, m3(comA)), 1e-12);
-    vh::P("origin_inertia_is_sum", key + ".inertiaO", diffSym(IO, mp.calcInertia().asSymMat33()) / std::max(1.0, maxSym(mp.calcInertia().asSymMat33())), 1e-13);
+    vh::P("mass_is_sum", key + ".mass", std::fabs((double)(M - mass)) / mass, nEps);
+    vh::P("com_is_weighted_sum", key + ".com", d3(C, com) / std::max(1.0, m3(com)), 4 * nEps);
+    vh::P("com_velocity_is_weighted_sum", key + ".comV", d3(CV, comV) / std::max(1.0, m3(comV)), 4 * nEps);
+    vh::P("com_acceleration_is_weighted_sum", key + ".comA", d3(CA, comA) / std::max(1.0, m3(comA)), 16 * nEps);
+    vh::P("origin_inertia_is_sum", key + ".inertiaO", diffSym(IO, mp.calcInertia().asSymMat33()) / std::max(1.0, maxSym(mp.calcInertia().asSymMat33())), 8 * nEps);
     const LM IC = IO - scale(M, pointMass(C));
-    vh::P("central_inertia_is_sum", key + ".central", diffSym(IC, central.asSymMat33()) / std::max(1.0, maxSym(mp.calcInertia().asSymMat33())), 1e-12);
-    vh::P("momentum_about_origin_is_sum", key + ".momO", std::max(d3(L, momO[0]), d3(P, momO[1])) / std::max(1.0, std::max(m3(momO[0]), m3(momO[1]))), 1e-13);
+    vh::P("central_inertia_is_sum", key + ".central", diffSym(IC, central.asSymMat33()) / std::max(1.0, maxSym(mp.calcInertia().asSymMat33())), 32 * nEps);
+    vh::P("momentum_about_origin_is_sum", key + ".momO", std::max(d3(L, momO[0]), d3(P, momO[1])) / std::max(1.0, std::max(m3(momO[0]), m3(momO[1]))), 8 * nEps);
     const L3 LC = L - cross(C, P);
-    vh::P("central_momentum_is_sum", key + ".momC", std::max(d3(LC, momC[0]), d3(P, momC[1])) / std::max(1.0, std::max(m3(momO[0]), m3(momC[1]))), 1e-12);
+    vh::P("central_momentum_is_sum", key + ".momC", std::max(d3(LC, momC[0]), d3(P, momC[1])) / std::max(1.0, std::max(m3(momO[0]), m3(momC[1]))), 32 * nEps);
     {   // linear momentum = total mass * mass-centre velocity (implementation's own numbers)
         const Vec3 mv = mass * comV;
-        vh::P("linear_momentum_is_M_vcom", key + ".MV", (mv - momO[1]).norm() / std::max(1.0, momO[1].norm()), 1e-13);
+        vh::P("linear_momentum_is_M_vcom", key + ".MV", (mv - momO[1]).norm() / std::max(1.0, momO[1].norm()), 8 * nEps);
     }
-    vh::P("kinetic_energy_is_sum", key + ".ke", std::fabs((double)(KE - ke)) / std::max(1.0, std::fabs(ke)), 1e-13);
+    vh::P("kinetic_energy_is_sum", key + ".ke", std::fabs((double)(KE - ke)) / std::max(1.0, std::fabs(ke)), 8 * nEps);
     {   // composite body inertia of body i = bodies of its subtree, about Bo_i
         double worst = 0;
         for (int i = 1; i <= nb; ++i) {
@@ -138,7 +146,7 @@ static void runCase(uint64_t caseSeed, int maxBodies) {
             const SymMat33 RI = R.calcInertia().asSymMat33();
             worst = std::max(worst, diffSym(I, RI) / std::max(1.0, maxSym(RI)));
         }
-        vh::P("composite_inertia_is_subtree_sum", key + ".cbi", worst, 1e-12);
+        vh::P("composite_inertia_is_subtree_sum", key + ".cbi", worst, 64 * nEps);
     }
 }
 
@@ -148,8 +156,8 @@ int main(int argc, char** argv) {
         static char buf[1 << 24];
         while (std::fgets(buf, sizeof buf, stdin)) {
             if (std::strncmp(buf, "I agg ", 6) != 0) continue;
-            unsigned long long cs; int mb;
-            if (std::sscanf(buf + 6, "%llu %d", &cs, &mb) == 2) runCase(cs, mb);
+            unsigned long long cs; int code;
+            if (std::sscanf(buf + 6, "%llu %d", &cs, &code) == 2) runCase(cs, code);
         }
         return 0;
     }
@@ -159,7 +167,7 @@ int main(int argc, char** argv) {
         const uint64_t cs = master.next() >> 1;
         int maxB = 12;
         if (thorough && master.below(5) == 0) maxB = 40;
-        runCase(cs, maxB);
+        runCase(cs, td::genCode(maxB, td::flagsForCase(k)));
     }
     return 0;
 }
